@@ -480,6 +480,89 @@ func init() {
 			c.Fact("wire.decode_id_call", idCall)
 		}
 
+		// ioConn.Read: how the unread rest of a batch is stored and popped (order of delivery, C03), and
+		// readBatch: the guard that keeps an empty array / null from being accepted (Read takes msgs[0])
+		if fd := c.Func("mcp", "ioConn", "Read"); fd != nil {
+			var pops []string
+			ast.Inspect(fd.Body, func(n ast.Node) bool {
+				as, ok := n.(*ast.AssignStmt)
+				if !ok {
+					return true
+				}
+				src := c.Src(as)
+				if strings.Contains(src, "t.queue") {
+					pops = append(pops, src)
+				}
+				return true
+			})
+			c.Fact("wire.read_queue_statements", pops)
+		}
+		if fd := c.Func("mcp", "", "readBatch"); fd != nil {
+			guard := ""
+			ast.Inspect(fd.Body, func(n ast.Node) bool {
+				is, ok := n.(*ast.IfStmt)
+				if ok && guard == "" && strings.Contains(c.Src(is.Cond), "len(rawBatch)") {
+					guard = c.Src(is.Cond)
+					for _, st := range is.Body.List {
+						if rs, ok := st.(*ast.ReturnStmt); ok && len(rs.Results) == 3 {
+							guard += " => return " + c.Src(rs.Results[0]) + ", " + c.Src(rs.Results[1]) + ", <error>"
+						}
+					}
+				}
+				return true
+			})
+			c.Fact("wire.readbatch_empty_guard", guard)
+		} else {
+			c.Errf("wire: readBatch not found")
+		}
+
+		// InputRequestMap.UnmarshalJSON: the entry struct, the methods of its switch, the decoder it uses
+		b.WriteString("\n")
+		if fd := c.Func("mcp", "InputRequestMap", "UnmarshalJSON"); fd != nil && fd.Body != nil {
+			var st *ast.StructType
+			var methods []string
+			calls := map[string]bool{}
+			ast.Inspect(fd.Body, func(n ast.Node) bool {
+				switch x := n.(type) {
+				case *ast.StructType:
+					if st == nil {
+						st = x
+					}
+				case *ast.SwitchStmt:
+					if x.Tag != nil && strings.HasSuffix(c.Src(x.Tag), ".Method") {
+						for _, cl := range x.Body.List {
+							for _, e := range cl.(*ast.CaseClause).List {
+								if id, ok := e.(*ast.Ident); ok {
+									if s, ok := c.ConstString("mcp", id.Name); ok {
+										methods = append(methods, s)
+										continue
+									}
+								}
+								c.Errf("wire: InputRequestMap.UnmarshalJSON: case %s is not a string constant", c.Src(e))
+							}
+						}
+					}
+				case *ast.CallExpr:
+					if fn := c.Src(x.Fun); strings.HasSuffix(fn, "Unmarshal") {
+						calls[fn] = true
+					}
+				}
+				return true
+			})
+			emitStruct("irmRaw", st, "mcp/protocol.go InputRequestMap.UnmarshalJSON")
+			fmt.Fprintf(&b, "/-- mcp/protocol.go `InputRequestMap.UnmarshalJSON`: the cases of `switch raw.Method` -/\ndef inputRequestMethods : List (List UInt8) := %s -- %q\n", leanBytesList(methods), methods)
+			var cs []string
+			for k := range calls {
+				cs = append(cs, k)
+			}
+			sort.Strings(cs)
+			c.Fact("wire.input_request_methods", methods)
+			// informational until fix F32 is in /repo (then: ["internaljson.Unmarshal"])
+			c.Fact("wire.input_request_decoders", cs)
+		} else {
+			c.Errf("wire: InputRequestMap.UnmarshalJSON not found")
+		}
+
 		b.WriteString("\nend Generated.Wire\n")
 		c.Lean["WireGen"] = b.String()
 	})
